@@ -274,8 +274,10 @@ def do_obligation(pid, ob, tier, keep):
             rec["wall_s"] = round(time.time() - t0, 2)
         rec.update(steps=pr["steps"], vccs=pr["vccs"], vccs_remaining=pr["vccs_remaining"], solver_s=round(pr["solver_s"], 3),
                    symex_s=round(pr["symex_s"], 3), sat_vars=pr["vars"], sat_clauses=pr["clauses"], no_body=sorted(set(pr.get("nobody", []))))
+        if pr["status"] == "error":   # cbmc gave up (e.g. solver out of memory under ulimit): not a verdict
+            pr["status"] = None
         if pr["status"] is None:
-            rec["verdict"] = "OOM" if ("bad_alloc" in se or "Out of memory" in se or rc in (-6, -9, 134, 137, 6)) else "ERROR"
+            rec["verdict"] = "OOM" if ("bad_alloc" in se or "Out of memory" in se or "out of memory" in " ".join(pr["errors"]).lower() or rc in (-6, -9, 134, 137, 6)) else "ERROR"
             rec["error"] = (se[-1500:] + "\n".join(pr["errors"][-5:]))
             return rec
         exp_fail = ob.get("expect_fail", [])
